@@ -64,6 +64,10 @@ CHECKS = {
  "C19": ("model_checking", "the specification's transitions (MC_IO, MC_Format bit patterns; thorough: layouts, params, look-ups) with expected states / exception classes / saved bytes replayed in six builds {-O0,-O2,-O3} x {static, shared}; plus byte-identical event streams on a damaged-file / print / vendor-file corpus",
          "Every action of the specification is a function of state and arguments, so a configuration-dependent result cannot be a behaviour of the specification in two builds at once: each of the six builds must follow the specification on every transition of the slices (values as bit patterns, exception classes, saved bytes), and a second corpus without expected values (loads of damaged files, print() output hash, vendor files load/save/load) must yield byte-identical event streams in all builds.",
          "one compiler family (g++ 12); the six builds share the harness source", "6/C19"),
+
+ "C18": ("exploration", "EzThreads.tla (threads over disjoint objects; TLC enumerates every call-granularity interleaving) ; interleavings forced on real threads by token passing, plus free-running rounds under ThreadSanitizer; every thread's results compared with the single-thread specification (replay of MC_IO paths)",
+         "Independence is defined by the specification (no shared object, no shared path; a thread's state is a function of its own calls). TLC enumerates all interleavings of 2 threads x 3 calls and 3 threads x 2 calls (thorough: also 2 x 4 and 3 x 3); each is forced on real threads, and 60 (quick) / 600 (thorough) rounds of 8 free-running threads replay paths of the I/O slice (construct, declare, frames, save and load in their own directories, destroy) under ThreadSanitizer. Each thread must observe exactly the states, exception classes and file bytes the specification predicts for its own sequence; a TSan report or abnormal exit is a violation.",
+         "instruction-level schedules are sampled by the OS scheduler, not enumerated; clang 14 TSan is the race sensor", "6/C18"),
 }
 NA = {
 }
